@@ -72,6 +72,9 @@ func blockingSites(fn *ssa.Function) []BSite {
 			if d, ok := blockingCalls[sc.String()]; ok {
 				out = append(out, BSite{fn, in, "call", sc.String() + ": " + d})
 			}
+			if d := retryExternal(sc); d != "" {
+				out = append(out, BSite{fn, in, "call", sc.String() + ": " + d})
+			}
 			if sc.String() == "(*sync.Mutex).Lock" || sc.String() == "(*sync.RWMutex).Lock" || sc.String() == "(*sync.RWMutex).RLock" {
 				out = append(out, BSite{fn, in, "lock", sc.String()})
 			}
